@@ -353,7 +353,7 @@ class FakeSignal(_Base):
         return len(self.subs)
 
     def clear_sub(self, cb, event_type=None):
-        self.ctx.op(self, "clear_sub", _cbname(cb), fallible=False)
+        self.ctx.op(self, "clear_sub", _cbname(cb))  # the fault plan makes only removals asked for by 'unmonitor' fail
         self.subs = [c for c in self.subs if c is not cb and c != cb]
 
     def put(self, v):
